@@ -158,6 +158,14 @@ def finishOutput : List String :=
 /-- openCompactionOutputFile: the number is allocated, marked pending and the file created by
 family.newTableBuilder (its order is `tie_newTableBuilder`) -/
 def openOutput : List String := ["family.newTableBuilder"]
+/-- EVERY place of package kv that touches `family.pendingOutputs` ("<file>:<func>:<call>"): the mark is set in
+newTableBuilder only (the model's `open`), released by cleanupCompaction (`cleanup`) and by storeFlusher.Commit (the
+flush's `cleanup`), read by deleteObsoleteFiles (`cPend`); nothing else — in particular not `finish` / `install`. -/
+def pendingMarkSites : List String :=
+  ["compact_job.go:cleanupCompaction:removePendingOutput", "compact_job.go:cleanupCompaction:removePendingOutput",
+   "family.go:newTableBuilder:addPendingOutput", "family.go:addPendingOutput:pendingOutputs.Store",
+   "family.go:removePendingOutput:pendingOutputs.Delete", "family.go:deleteObsoleteFiles:pendingOutputs.Range",
+   "flusher.go:Commit:removePendingOutput"]
 end Code
 
 end LinVerif.CompactOuts
